@@ -193,6 +193,44 @@ Section Dft.
     - intros k _. rewrite dft_add, !dft_scal. ring.
   Qed.
 
+  (* ---- the other inverse, and spectral filters (multiply bin k by H k): composition and inversion ---- *)
+  Theorem dft_idft (X : nat -> T) (k : nat) : (k < n)%nat -> dft (idft X) k = X k.
+  Proof.
+    intros Hk. unfold dft, idft.
+    rewrite (sumf_ext _ (fun m => sumf (fun j => (ninv * X j) * W ((Z.of_nat j - Z.of_nat k) * Z.of_nat m)%Z) n)).
+    2:{ intros m _. transitivity (sumf (fun j => (ninv * W (- (Z.of_nat k * Z.of_nat m))%Z) * (X j * W (Z.of_nat j * Z.of_nat m)%Z)) n).
+        - rewrite sumf_scal. ring.
+        - apply sumf_ext. intros j _.
+          replace ((Z.of_nat j - Z.of_nat k) * Z.of_nat m)%Z with (Z.of_nat j * Z.of_nat m + - (Z.of_nat k * Z.of_nat m))%Z by ring.
+          rewrite W_add. ring. }
+    rewrite sumf_swap.
+    rewrite (sumf_ext _ (fun j => (ninv * X j * ofnat n) * (if Nat.eq_dec j k then 1 else 0))).
+    2:{ intros j Hj. rewrite sumf_scal. destruct (Nat.eq_dec j k) as [->|Hne].
+        - rewrite orth1; [ring|]. rewrite Z.sub_diag. apply Z.mod_0_l. lia.
+        - rewrite orth; [ring|]. intros E. apply Hne. apply Z.mod_divide in E; [|lia]. destruct E as [q E].
+          assert (q = 0)%Z by nia. lia. }
+    rewrite (sumf_delta (fun j => ninv * X j * ofnat n) k n).
+    - transitivity (X k * (ninv * ofnat n)); [ring|]. rewrite ninv_ok. ring.
+    - intros i Hi. destruct (Nat.eq_dec i k); [contradiction|reflexivity].
+    - destruct (Nat.eq_dec k k); [reflexivity|contradiction].
+    - exact Hk.
+  Qed.
+
+  Definition filt (H x : nat -> T) : nat -> T := idft (fun k => dft x k * H k).
+  Lemma dft_filt H x k : (k < n)%nat -> dft (filt H x) k = dft x k * H k.
+  Proof. intros Hk. unfold filt. apply (dft_idft (fun k => dft x k * H k) k Hk). Qed.
+  Theorem filt_compose H1 H2 x m : filt H2 (filt H1 x) m = filt (fun k => H1 k * H2 k) x m.
+  Proof. unfold filt at 1 3. unfold idft. f_equal. apply sumf_ext. intros k Hk. rewrite dft_filt by exact Hk. ring. Qed.
+  Theorem filt_inverse H1 H2 x m : (forall k, (k < n)%nat -> H1 k * H2 k = 1) -> (m < n)%nat -> filt H2 (filt H1 x) m = x m.
+  Proof.
+    intros HH Hm. rewrite filt_compose. rewrite <- (dft_inv x m Hm). unfold filt, idft. f_equal. apply sumf_ext.
+    intros k Hk. rewrite (HH k Hk). ring.
+  Qed.
+  Lemma filt_tone H k0 m : (k0 < n)%nat -> filt H (tone k0) m = H k0 * tone k0 m.
+  Proof. intros H0. apply diag_tone. exact H0. Qed.
+  Lemma filt_linear H a x b y m : filt H (fun j => a * x j + b * y j) m = a * filt H x m + b * filt H y m.
+  Proof. apply diag_linear. Qed.
+
   (* ---- conjugation: real-part theorem for Hilbert-type weights ---- *)
   Variable conj : T -> T.
   Hypothesis conj_add : forall a b, conj (a + b) = conj a + conj b.
